@@ -184,8 +184,22 @@ def cycle(run, doc, res, case):
     m1 = mask(las)
     if any(m is None for m in m1):
         return
-    s = io.StringIO()
     rng = getattr(run, "rng", None) or __import__("random").Random(0)
+    if case.get("edit_in_place") or (not case.get("write_options") and rng.random() < 0.3 and len(m1) > 1 and m1[0]):
+        # the object is written once (every array has been looked at), THEN samples are set to NaN in place, then it is written
+        # again: the second output must carry the NULL at exactly the NaN positions the object holds now
+        try:
+            las.write(io.StringIO(), version=2.0)
+            _ = las.data
+        except Exception as e:
+            run.fail("cycle-error", case, repr(e)[:200])
+            return
+        edits = case.get("edit_in_place") or [[rng.randrange(1, len(m1)), rng.randrange(len(m1[0]))] for _ in range(rng.randint(1, 3))]
+        for j, i in edits:
+            las.curves[j].data[i] = float("nan")
+        m1 = mask(las)
+        case = dict(case, edit_in_place=edits)
+    s = io.StringIO()
     # any writer options: every NaN goes out as the text of the current NULL, whatever the number format
     opts = dict(version=rng.choice([1.2, 2.0]))
     if case.get("write_options"):        # replay / shrink: the recorded options
@@ -215,8 +229,10 @@ def cycle(run, doc, res, case):
         run.fail("cycle-mask", case, {"before": m1, "after": m2, "written": s.getvalue()[-400:]})
 
 
-def check(run, doc, eng, pol, tag, do_cycle):
+def check(run, doc, eng, pol, tag, do_cycle, mnemonic_case=None):
     kw = {"engine": eng, "null_policy": pol}
+    if mnemonic_case is not None:
+        kw["mnemonic_case"] = mnemonic_case       # (the NULL item is then stored as `null` / `Null`: it still steers)
     case = {"text": doc["text"], "kw": kw, "null": doc["null_text"], "cells": doc["cells"], "c": doc["c"], "r": doc["r"], "nullv": doc["nullv"]}
     run.case(case, nontrivial=doc["interesting"],
              tags=[tag, "eng=" + eng, "pol=" + pol, "wrapped" if doc["wrapped"] else "unwrapped",
@@ -237,11 +253,30 @@ def run(run):
                 text = dd.assemble(dd.header(null=ntext, declared=dd.names(3)), "~A", [" ".join(r) for r in cells], [])
                 doc = dict(text=text, cells=cells, c=3, r=4, d=3, wrapped=False, null_text=ntext, nullv=-999.25, interesting=True)
                 check(run, doc, eng, pol, "spelled", False)
-    for _ in range(run.budget(2500, 20000)):
+    for n in range(run.budget(2500, 20000)):
         doc = gen_doc(run.rng)
+        mc = [None, None, "lower", "preserve", "upper"][n % 5]
         for eng in ("numpy", "normal"):
             for pol in ("strict", "none"):
-                check(run, doc, eng, pol, "random", False)
+                check(run, doc, eng, pol, "random", False, mnemonic_case=mc)
+    # DLM COMMA / TAB with empty fields: an empty field is a text cell, so its column is a text column and stays untouched
+    # (COMMA only: lasio's TAB splitter collapses runs of TABs, so a TAB-delimited line cannot carry an empty field)
+    for dlm, sep in (("COMMA", ","),):
+        for variant in range(run.budget(12, 80)):
+            rng = run.rng
+            r, c = rng.randint(2, 5), rng.randint(2, 4)
+            cells = [[rng.choice(["-999.25", "1.5", "7", "-999.2500"]) for _ in range(c)] for _ in range(r)]
+            j0 = rng.randrange(1, c)
+            cells[rng.randrange(r)][j0] = ""
+            if rng.random() < 0.5:
+                cells[rng.randrange(r)][c - 1] = ""
+            for i in range(r):
+                cells[i][0] = str(i + 1)
+            text = dd.assemble(dd.header(null="-999.25", dlm=dlm, declared=dd.names(c)), "~A", [sep.join(row) for row in cells], [])
+            doc = dict(text=text, cells=cells, c=c, r=r, d=c, wrapped=False, null_text="-999.25", nullv=-999.25, interesting=True)
+            for eng in ("numpy", "normal"):
+                for pol in ("strict", "none"):
+                    check(run, doc, eng, pol, "delimited-empty-field", False)
     # write -> read cycle on well-separated numeric documents
     for _ in range(run.budget(1200, 10000)):
         doc = gen_doc(run.rng, separated=True)
